@@ -1,9 +1,11 @@
 import Morlock.Model.Bernstein
 import Morlock.Driver.Chess
 import Morlock.Driver.Game
+import Morlock.Spec.Search
 /-!
 Driver op `bernstein <factor> <limit> <fen6> ; m:<uci> ...`: the Bernstein evaluation and plausible-move
-table of the model on the position reached, with every intermediate component.
+table of the model on the position reached, with every intermediate component — and, after ` ## `, what the
+REFERENCE semantics (`Spec`, mailbox board; namespace `RefB` below) says about each component (`*` = no constraint).
 -/
 namespace Morlock.Driver
 open Morlock Morlock.Model Morlock.Model.Bernstein
@@ -33,6 +35,128 @@ def capStr (p : Position) : String :=
       some s!"{Fen.squareString sq}:{one .white}/{one .black}"
   if items.isEmpty then "-" else String.intercalate "," items
 
+/-! ## reference side: everything below is computed from `Spec` only -/
+namespace RefB
+open Morlock.Spec
+
+def code (k : Kind) : Nat := (kindPiece k).code
+
+/-- the `c` men attacking `sq`, by ascending square -/
+def attackers (p : Pos) (c : Spec.Color) (sq : Sq) : List (Sq × Kind) :=
+  allSquares.filterMap fun s =>
+    match p.at s with
+    | some (c', k) =>
+      if c' = c && (if k = .pawn then (pawnTargets c s).contains sq else (officerTargets p.occ k s).contains sq)
+      then some (s, k) else none
+    | none => none
+
+def material (p : Pos) (c : Spec.Color) : Int :=
+  allSquares.foldl (fun acc s => match p.at s with
+    | some (c', k) => if c' = c && k ≠ .king then acc + kindValue k else acc
+    | none => acc) 0
+
+def control (p : Pos) (c : Spec.Color) : Int :=
+  ((allSquares.filter fun sq => attackedBy p c sq && !attackedBy p c.opp sq).length : Int)
+
+def kingDefense (p : Pos) (c : Spec.Color) : Option Int :=
+  (kingSquare? p c).map fun ks =>
+    (((officerTargets p.occ .king ks).filter fun sq =>
+      if p.occ sq then attackedBy p c sq && !attackedBy p c.opp sq
+      else (attackers p c sq).any (fun a => a.2 ≠ .king) && !attackedBy p c.opp sq).length : Int)
+
+/-- number of legal moves of `c`; for the side not to move only defined without an en-passant target -/
+def mobility (p : Pos) (c : Spec.Color) : Option Int :=
+  if c = p.turn then some ((legalMoves p).length : Int)
+  else if p.ep.isSome then none
+  else some ((legalMoves { p with turn := c }).length : Int)
+
+def score (p : Pos) (factor : Int) (c : Spec.Color) : Option Int :=
+  match mobility p c, kingDefense p c with
+  | some m, some d => some (max 1 (m + control p c + d + factor * material p c))
+  | _, _ => none
+
+/-- `IsSafe` by `isSafe_spec`: not attacked, or defended and no attacker cheaper than the piece -/
+def isSafe (p : Pos) (c : Spec.Color) (k : Kind) (sq : Sq) : Bool :=
+  let att := attackers p c.opp sq
+  if att.isEmpty then true
+  else if !attackedBy p c sq then false
+  else att.all fun a => decide (kindValue k ≤ kindValue a.2)
+
+def notUnderPromo (m : SMove) : Bool := match m.promo with | none => true | some k => k == .queen
+
+/-- `IsMoveSafe`: the moved man (a promoting pawn counts as a pawn, as in the engine) is safe on its destination afterwards -/
+def isMoveSafe (p : Pos) (m : SMove) : Bool :=
+  match p.at m.from with
+  | some (c, k) => isSafe (apply p m) c k m.to
+  | none => false
+
+def safeStr (p : Pos) : String :=
+  let items := ((legalMoves p).filter notUnderPromo).map fun m =>
+    let k := match p.at m.from with | some (_, k) => k | none => .pawn
+    s!"{moveName m}:{if isMoveSafe p m then "1" else "0"}{if isSafe p p.turn k m.from then "1" else "0"}"
+  if items.isEmpty then "-" else String.intercalate "," (sortStrings items)
+
+def attStr (p : Pos) : String :=
+  let items := allSquares.filterMap fun sq =>
+    if !p.occ sq then none else
+      let one (c : Spec.Color) : String := String.intercalate "" ((attackers p c sq).map fun a => s!"{code a.2}{sqName a.1}")
+      some s!"{sqName sq}:{one .white}/{one .black}"
+  if items.isEmpty then "-" else String.intercalate "," items
+
+end RefB
+
+def optStar (o : Option Int) : String := match o with | some v => toString v | none => "*"
+
+def flags (l : List Bool) : String := String.intercalate "" (l.map bit01)
+
+def namesNodup : List String → Bool
+  | [] => true
+  | x :: xs => !xs.contains x && namesNodup xs
+
+/-- the properties of the plausible list, judged against the reference legal moves:
+legal, no under-promotion, no duplicate, non-empty iff a legal move exists, complete when no castling move is legal -/
+def plausibleFlags (sp : Spec.Pos) (plausible : List Move) : String :=
+  let legal := Spec.legalMoves sp
+  let names := legal.map Spec.moveName
+  let pn := plausible.map moveUci
+  flags [pn.all names.contains, plausible.all (fun m => RefB.notUnderPromo (absMove m)), namesNodup pn,
+    pn.isEmpty == names.isEmpty,
+    legal.any (Spec.isCastle sp) || sortStrings pn == sortStrings ((legal.filter RefB.notUnderPromo).map Spec.moveName)]
+
+/-- prefix of the plausible list, within the limit, non-empty iff the plausible list is -/
+def tableFlags (plausible table : List Move) (limit : Int) : String :=
+  let pn := plausible.map moveUci
+  let tn := table.map moveUci
+  flags [tn == pn.take tn.length, limit ≤ 0 || (tn.length : Int) ≤ limit, tn.isEmpty == pn.isEmpty,
+    limit > 0 || tn.length == pn.length]
+
+/-- `Explore` picks exactly the table, with priorities `len - index` -/
+def selFlags (table legal : List Move) (prio : Move → Int) (pick : Move → Bool) : String :=
+  let tn := table.map moveUci
+  flags [legal.all fun m => pick m == tn.contains (moveUci m),
+    (table.zipIdx).all fun (m, i) => prio m == (table.length : Int) - (i : Int)]
+
+def capSortedOk (p : Position) : Bool :=
+  (List.range 64).all fun sq => [Color.white, Color.black].all fun c =>
+    let raw := findCapture p c sq
+    let srt := sortByNominalValue raw
+    let vals := srt.map fun pl => nominalValue pl.piece
+    (vals.zip (vals.drop 1)).all (fun (a, b) => decide (a ≤ b)) &&
+      sortStrings (raw.map fmtPlacement) == sortStrings (srt.map fmtPlacement)
+
+def attStrModel (p : Position) : String :=
+  let items := (List.range 64).filterMap fun sq =>
+    if p.isEmpty sq then none else
+      let one (c : Color) : String :=
+        let l := stableSort (fun (a b : Placement) => decide (a.square < b.square)) (findCapture p c sq)
+        String.intercalate "" (l.map fmtPlacement)
+      some s!"{Fen.squareString sq}:{one .white}/{one .black}"
+  if items.isEmpty then "-" else String.intercalate "," items
+
+def safeStrModel (p : Position) (turn : Color) (base : List Move) : String :=
+  let items := base.map fun m => s!"{moveUci m}:{bit01 (isMoveSafe p turn m)}{bit01 (isSafe p turn m.piece m.from)}"
+  if items.isEmpty then "-" else String.intercalate "," (sortStrings items)
+
 def bernsteinOp (_st : DriverState) (args : List String) : String :=
   match args with
   | factor :: limit :: rest =>
@@ -40,9 +164,8 @@ def bernsteinOp (_st : DriverState) (args : List String) : String :=
     | some factor, some limit =>
       let fenToks := rest.takeWhile (· ≠ ";")
       let items := (rest.dropWhile (· ≠ ";")).drop 1
-      match Fen.decode (joinSp fenToks).toList with
-      | none => "err"
-      | some d =>
+      match Fen.decode (joinSp fenToks).toList, Spec.parseFen (joinSp fenToks) with
+      | some d, some sg =>
         -- the moves of the line, matched among the pseudo-legal moves as the harness does; a refused move is skipped
         let (p, turn) := items.foldl (fun (acc : Position × Color) it =>
           let (p, turn) := acc
@@ -54,6 +177,14 @@ def bernsteinOp (_st : DriverState) (args : List String) : String :=
               | none => acc
               | some p' => (p', turn.opp)
           else acc) (d.pos, d.turn)
+        -- the reference position reached by the same moves
+        let sp := items.foldl (fun (sp : Spec.Pos) it =>
+          if it.startsWith "m:" then
+            let uci := (it.drop 2).toString
+            match (Spec.legalMoves sp).find? (fun m => Spec.moveName m == uci) with
+            | none => sp
+            | some m => Spec.apply sp m
+          else sp) sg.pos
         let opp := turn.opp
         let two (f : Color → String) : String := f turn ++ "/" ++ f opp
         let base := baseMoves p turn
@@ -62,15 +193,29 @@ def bernsteinOp (_st : DriverState) (args : List String) : String :=
         let (prio, pick) := explore limit p turn
         let legal := p.legalMoves turn
         let sel := (legal.filter pick).map fun m => s!"{moveUci m}:{prio m}"
-        let safe := base.map fun m => s!"{moveUci m}:{bit01 (isMoveSafe p turn m)}{bit01 (isSafe p turn m.piece m.from)}"
         let strs (l : List String) : String := if l.isEmpty then "-" else String.intercalate "," l
         -- a side without a king: the Go evaluation panics (`king[64]`), the harness reports `panic` for the whole op
-        if (evaluate p factor turn).isNone || (evaluate p factor opp).isNone then "panic" else
-        s!"self={optInt (evaluate p factor turn)} opp={optInt (evaluate p factor opp)} eval={fmtPawns (evalEvaluate p factor turn)}" ++
-        s!" mob={two fun c => toString (mobility p c)} ctl={two fun c => toString (control p c)}" ++
-        s!" def={two fun c => optInt (kingDefense p c)} mat={two fun c => toString (material p c)}" ++
-        s!" chk={bit01 (p.isChecked turn)} safe={strs safe} plausible={movesStr plausible} table={movesStr table} sel={strs sel}" ++
-        s!" cap={capStr p}"
+        let model :=
+          if (evaluate p factor turn).isNone || (evaluate p factor opp).isNone then "panic" else
+          s!"self={optInt (evaluate p factor turn)} opp={optInt (evaluate p factor opp)} eval={fmtPawns (evalEvaluate p factor turn)}" ++
+          s!" mobT={mobility p turn} mobO={mobility p opp} ctl={two fun c => toString (control p c)}" ++
+          s!" def={two fun c => optInt (kingDefense p c)} mat={two fun c => toString (material p c)}" ++
+          s!" chk={bit01 (p.isChecked turn)} base={movesStr base} safe={safeStrModel p turn base}" ++
+          s!" plausible={movesStr plausible} table={movesStr table} sel={strs sel}" ++
+          s!" pl-ok={plausibleFlags sp plausible} tbl-ok={tableFlags plausible table limit} sel-ok={selFlags table legal prio pick}" ++
+          s!" cap={capStr p} cap-ok={bit01 (capSortedOk p)} att={attStrModel p}"
+        let st := sp.turn
+        let so := sp.turn.opp
+        let spec :=
+          if (RefB.kingDefense sp st).isNone || (RefB.kingDefense sp so).isNone then "panic" else
+          let two' (f : Spec.Color → String) : String := f st ++ "/" ++ f so
+          s!"self={optStar (RefB.score sp factor st)} opp={optStar (RefB.score sp factor so)} eval=*" ++
+          s!" mobT={optStar (RefB.mobility sp st)} mobO={optStar (RefB.mobility sp so)} ctl={two' fun c => toString (RefB.control sp c)}" ++
+          s!" def={two' fun c => optInt (RefB.kingDefense sp c)} mat={two' fun c => toString (RefB.material sp c)}" ++
+          s!" chk={bit01 (Spec.inCheck sp st)} base=* safe={RefB.safeStr sp}" ++
+          s!" plausible=* table=* sel=* pl-ok=11111 tbl-ok=1111 sel-ok=11 cap=* cap-ok=1 att={RefB.attStr sp}"
+        model ++ " ## " ++ spec
+      | _, _ => "err"
     | _, _ => "bad-op"
   | _ => "bad-op"
 
